@@ -187,7 +187,9 @@ def run(res, replay=None):
                 "pool sizes 1..6, 20-400 calls of new/fetch/write/unpin/flush/flush-all/deallocate(noWait or not)/mark-deallocated; "
                 "after every call: returned bytes vs latest written, pinned pages resident exactly once with the users' pin count, new ids not in use, "
                 "and the whole bookkeeping state vs the model (victim frame taken from the implementation, checked legal); "
-                "non-trivial = distinct history in which a dirty page was cached out and fetched again")
+                "non-trivial = distinct history in which a dirty page was cached out and fetched again; "
+                "plus the engine's own pool users under eviction pressure: SQL joins and mirrored DML in pools of 12-64 frames compared with the reference, with the pool-user contract "
+                "(a modified page is released dirty) monitored by hook H5 in every scripted session of every check")
     res.trusted = COMMON_TRUSTED + ["hook H3 (BufferPoolManager.VerifSnapshot/VerifTryLock)", "victim frame = input from the implementation, only its legality (member of the replacer, unpinned) is checked",
                                     "a page's 4096 bytes are represented by an 8-byte value stored at offset 64", "python client simulation and oracle (checks/c13.py)"]
     res.assumptions = ["VirtualDiskManagerImpl read semantics (pages beyond the highest written page cannot be read)", "calls are issued sequentially (the pool serialises callers with one mutex)"]
@@ -254,3 +256,14 @@ def run(res, replay=None):
                 res.mismatches.append((l[:2000], "first difference at call %d: impl %s | model %s" % (k, it[k] if k < len(it) else "-", mt[k] if k < len(mt) else "-")))
         res.distribution = {"histories": len(lines), "calls": nops}
     res.samples = [lines[-1][:400]] if lines else []
+    if not replay:
+        # the engine's own pool users under eviction pressure (lib/pressure.py) + contract monitor (hook H5, reported by vlib.finish)
+        import pressure
+        for fr in ([12, 20] if res.tier == "quick" else [10, 12, 16, 24, 40]):
+            for d, w in pressure.tiny_pool_join(res, rng, fr):
+                if len(res.oracle_failures) < 5:
+                    res.oracle_failures.append((d, w))
+        for fr in ([16, 32] if res.tier == "quick" else [14, 16, 20, 24, 32, 48, 64]):
+            for d, w in pressure.small_pool_dml(res, rng, fr, 80 if res.tier == "quick" else 300):
+                if len(res.oracle_failures) < 5:
+                    res.oracle_failures.append((d, w))
